@@ -229,8 +229,13 @@ func (h *paramHelper) safeExpandedParamsFor(path, method, operationID string, re
 				resolvedParams = append(resolvedParams, *resolvedParam)
 			}
 		}
-		// remove params with invalid expansion from Slice
+		// remove params with invalid expansion from Slice, for the time of this call only: when the
+		// document could not be expanded, the operation is the one of the caller's document
+		original := operation.Parameters
 		operation.Parameters = resolvedParams
+		defer func() {
+			operation.Parameters = original
+		}()
 
 		for _, ppr := range s.expandedAnalyzer().SafeParamsFor(method, path,
 			func(_ spec.Parameter, err error) bool {
@@ -251,6 +256,12 @@ func (h *paramHelper) resolveParam(path, method, operationID string, param *spec
 	var err error
 	res := new(Result)
 	isRef := param.Ref.String() != ""
+	if param.Schema != nil {
+		// the schema is expanded in place: work on a copy, so that the caller's document is left as it is
+		if clone, cloneErr := deepCloneSchema(*param.Schema); cloneErr == nil {
+			param.Schema = &clone
+		}
+	}
 	if s.spec.SpecFilePath() == "" {
 		err = spec.ExpandParameterWithRoot(param, s.spec.Spec(), nil)
 	} else {
